@@ -44,6 +44,13 @@ theorem c04_lock_is_counter :
     Gen.gcLockInit = some 0 ∧ Gen.gcLockEnterDelta = some 1 ∧ Gen.gcLockExitDelta = some (-1) := by
   decide
 
+/-- translator obligation: no generator of the library yields inside a `with _wrapper_cache:`
+    block - the lock is only ever held for the duration of a call, never while an iterator is
+    suspended (then released nodes would not be evicted: "no cached node objects left behind") -/
+theorem c04_lock_never_held_across_yield :
+    Gen.gcLockHeldAcrossYield = [] ∧ 0 < Gen.gcLockBlocks := by
+  decide
+
 /-- … so for every properly nested use of `with _wrapper_cache:` - any depth, any order - the
     counter equals the number of blocks that are open: collections stay switched off until the
     OUTERMOST block is left, and are on again afterwards -/
